@@ -60,6 +60,10 @@ NUMERIC = [
     'range(%s, %s).to_array().len()' % (xint(-(1 << 63)), xint((1 << 63) - 1)), 'range(0, %s, 1).last(always)' % xint((1 << 63) - 1),
     'gcd(%s, %s)' % (xint(3 ** 200), xint(2 ** 300 + 1)), 'lcm(%s, 7)' % xint(3 ** 200), '(2 ** 100000) % 7', 'to_int("1" * 100000).sign()' if False else '("1" * 100000).to_int().sign()',
     '"ab".repeat(3)' if False else '"abc" * 0', '"a,b".split(",", 1000000000000).to_array()', '"aaaa".replace("", "b")', '"aaaa".split("").take(3).to_array()',
+    # whole-sequence builtins on infinite sequences that are built from infinite sequences: an error, never a native loop
+    'count().zip(count()).to_array().len()', 'count(7).enumerate().to_array().len()', 'count().zip(count()).to_stack().len()', 'count().zip(count().map(inc)).sort((a: (int, int), b: (int, int))->{ 0 }).len()',
+    'count().zip(count()).len()', 'count().map(inc).to_array().len()', 'count().skip(5).to_array().len()', '(count() + [1]).len()', 'count().repeat().to_array().len()', 'count().zip(count()).push((1, 1)).len()',
+    'count().zip(count()).reverse().to_array().len()', 'count().enumerate().is_infinite()',
     'count().to_generator().windows(0).take(1).to_array()', 'count().to_generator().chunks(0).take(1).to_array()', 'range(10).to_generator().windows(1000000000000).to_array()',
     '[1, 2, 3].repeat(1000000000000).len()', '[1, 2, 3].to_generator().repeat(1000000000000).len()', 'chr(1114111).len()', 'json_deserialize("[" * 100000)',
     'json_deserialize("[" * 2000 + "]" * 2000).serialize().len()', 'sleep(seconds(0.0))',
